@@ -29,12 +29,15 @@ PRINCIPAL = [c for c in ALL_CONFIGS if c['maxprocs'] == 1 and not c['cache'] and
 BASE_CONFIGS = [c for c in SERIAL_CONFIGS if c['stats'] is None or c['simplify'] and c['optimize']]
 PAR_ONE = dict(simplify=True, optimize=True, cache=False, stats=None, maxprocs=2, first_valuation_only=True)
 
+D3_CORE_OPS = ['abs', 'add', 'diagonalize', 'inflate', 'multiply', 'powc', 'sum', 'take', 'takediag', 'transpose']
 TERM_PROFILES = {
     'quick': [{'name': 'd2-f5', 'leaves': 'f5', 'consts': False, 'ops': 'all', 'depth': 2},
               {'name': 'd1-mixed', 'leaves': 'mixed', 'consts': True, 'ops': 'all', 'depth': 1}],
-    'thorough': [{'name': 'd2-all', 'leaves': 'all', 'consts': True, 'ops': 'all', 'depth': 2}],
+    'thorough': [{'name': 'd2-all', 'leaves': 'all', 'consts': True, 'ops': 'all', 'depth': 2},
+                 # depth 3 over the structural heart of the rewrite core (the family C01 completes in its quick tier): leaves a (2,), A (2,2)
+                 {'name': 'd3-core', 'leaves': 'aA', 'consts': False, 'ops': D3_CORE_OPS, 'depth': 3, 'binary': True}],
 }
-NPARTS = {'quick': {1: 2, 2: 40}, 'thorough': {1: 4, 2: 300}}
+NPARTS = {'quick': {1: 2, 2: 40}, 'thorough': {1: 4, 2: 300, 3: 300}}
 LOOP_CHUNK = 30
 
 
